@@ -169,7 +169,8 @@ class Scheduler:
 
         cluster_capacity = False
         pipeline_demand = pipelines[observation.name]['ingest_demand']
-        if self.cluster.check_ingest_capacity(pipeline_demand, max_ingest):
+        if self.cluster.check_ingest_capacity(pipeline_demand, max_ingest,
+                                              reserved=self.provision_ingest):
             if self.provision_ingest + pipeline_demand <= max_ingest:
                 cluster_capacity = True
                 # Only reserve ingest machines for an observation that will
